@@ -186,6 +186,9 @@ func verifHistory(r *vrand.Rand) (steps []verifStep, mode string, wrap, nsJitter
 			st.dt += int64(r.Pick(-1, 1)) // one nanosecond early / late
 			st.gap = "exactly+-1ns"
 		}
+		if st.gap == "same-instant" && nsJitter && r.Bool() {
+			st.dt, st.gap = int64(r.Pick(1, 999, 500000, 999999)), "sub-millisecond" // time has moved, by less than the meters' millisecond unit
+		}
 		if i == 0 {
 			st.dt = 0
 		}
